@@ -33,3 +33,51 @@ fn byte_array(a: u8) -> u32 {
     }
     s.len()
 }
+
+// match directly on a boxed enum (enum_boxed_match) with a temporary alive across the match
+#[inline(never)]
+fn ident_bn(x: felt252) -> felt252 {
+    x
+}
+
+#[inline(never)]
+fn pick_boxed(b: Box<Option<felt252>>, x: felt252) -> felt252 {
+    let t = ident_bn(x);
+    match b {
+        Some(v) => v.unbox() + t,
+        None => t,
+    }
+}
+
+#[derive(Drop)]
+enum ThreeBn {
+    A: felt252,
+    B: felt252,
+    C,
+}
+
+#[inline(never)]
+fn pick_boxed3(b: Box<ThreeBn>, x: felt252) -> felt252 {
+    let t = ident_bn(x);
+    match b {
+        ThreeBn::A(v) => v.unbox() + t,
+        ThreeBn::B(v) => v.unbox() + 2 * t,
+        ThreeBn::C => t,
+    }
+}
+
+fn boxed_enum_match(flag: u8, x: felt252) -> felt252 {
+    let b: Box<Option<felt252>> = if flag % 2 == 0 {
+        BoxTrait::new(Option::None)
+    } else {
+        BoxTrait::new(Option::Some(100))
+    };
+    let c: Box<ThreeBn> = if flag % 3 == 0 {
+        BoxTrait::new(ThreeBn::A(5))
+    } else if flag % 3 == 1 {
+        BoxTrait::new(ThreeBn::B(7))
+    } else {
+        BoxTrait::new(ThreeBn::C)
+    };
+    pick_boxed(b, x) * 1000 + pick_boxed3(c, x + 1)
+}
